@@ -47,4 +47,17 @@ structure Shape where
   final : List Step
 deriving DecidableEq, Repr
 
+/-- one assignment to `roleRequestingCertGenParams.Duration` in a parameter parser of
+cmd/keymasterd/roleRequestingCert.go, by where its value comes from -/
+inductive RoleAssign
+  /-- `= maxRoleRequestingCertDuration` -/
+  | maxConst
+  /-- `= presented.NotAfter.Sub(presented.NotBefore)` of the client certificate -/
+  | presented
+  /-- the same, guarded by `if lifetime > 0` -/
+  | presentedIfPositive
+  /-- anything else (a parsed form value, another expression …) -/
+  | unknown
+deriving DecidableEq, Repr
+
 end KM.Dur
